@@ -60,7 +60,7 @@ func genText(r *hx.Rand, i int) interface{} {
 	if r.Chance(1, 10) {
 		n = 1 + r.Intn(40)
 	}
-	ds := rt.Small.GenScript(r, n)
+	ds := genScript(r, &rt.Small, n)
 	v := &varier{r: r, level: r.Intn(3)}
 	mal := -1
 	switch {
